@@ -268,7 +268,8 @@ def reportImpl (s : Sess) (t : Nat) (r : Raised) (name : String) : Option Sess :
     match r with
     | .none =>
       let u := updateStates (toProject s.tasks) s.g s.w t (neighbours s.g t)
-      if u.2 then some (addReport { s with w := u.1 } t .success) else some { s with w := u.1, crashed := true }
+      -- one transaction (637627e): if a neighbour has no state nothing is recorded and the exception escapes the protocol
+      if u.2 then some (addReport { s with w := u.1 } t .success) else some { s with crashed := true }
     | _ => some { addReport s t .fail with failMarks := s.failMarks ++ taskDesc s.g t }
   else none
 
